@@ -198,11 +198,21 @@ PROPS["C16"] = dict(
     bounded=[("c16_regions_small_grids", {"quick": 60, "thorough": 900}), ("c16_regions_random", {"quick": 30, "thorough": 300})],
 )
 PROPS["C15"] = dict(
-    allow_no_contracts=True,
+    producers=[("pyvc.table_check", "call_items")],
     level="exploration",
-    technique="bounded: point-in-polygon rasterisation round trip, exhaustive over small rasters and random larger ones (JIT on); contract-level proofs for the local helpers (_transform_points, _min_and_max, _outside_domain)",
-    not_decided=["losslessness / orientation / area are topological facts about the boundary walk (_follow) and region merging: bounded only"],
-    assumptions=[],
+    technique="mixed.  Contract-based deductive verification (pyvc VCs -> z3) of polygonize's first stage on the real code: "
+              "_calculate_regions (both the masked and the unmasked typing) labels exactly the connected regions of equal value - masked "
+              "cells 0, others >= 1, equal labels only inside a class of every adjacency-closed labelling (ghost), every cell joined with "
+              "its equal W/S/SW/SE neighbours (under a prophecy ghost labelling) - on top of _merge_regions (merge forest: links "
+              "descend, classes preserved and joined, resize) and the helpers (_transform_points, _min_and_max, _diff_row, "
+              "_outside_domain).  The second stage (boundary walk, hole attribution, orientation, area) is bounded: point-in-polygon "
+              "rasterisation round trip, exhaustive over small rasters and random larger ones (JIT on)",
+    not_decided=["losslessness / orientation / area / hole attribution are topological facts about the boundary walk (_follow, _scan): bounded only",
+                 "rasters outside the labelling contract's domain (non-finite values, values on which the isclose test is not equality): bounded only",
+                 "more than 2**32 - 1 provisional region ids (RuntimeError by design)"],
+    assumptions=["_is_close (numba generated_jit dispatcher) is trusted: its two lambdas are pinned on the AST; on the domain both mean equality",
+                 "prophecy argument: the completeness postcondition holds for every region-id labelling dd under `dd == the flattened lookup`; "
+                 "instantiating dd with the lookup the function computes discharges the premise (DESIGN section 4, C15)"],
     trusted_base=[],
     bounded=[("c15_polygonize_small_grids", {"quick": 60, "thorough": 900, "jit": True}), ("c15_polygonize_random", {"quick": 40, "thorough": 400, "jit": True})],
 )
